@@ -6,6 +6,7 @@ import sys
 import time
 
 from sim.tape import Tape, run_seed
+from sim.execute import make_case
 
 
 def main():
@@ -19,7 +20,7 @@ def main():
     nontriv = 0
     for i in range(n):
         seed = run_seed(0, prop, tier, i)
-        case = mod.generate(random.Random(seed ^ 0x5EED5EED), tier)
+        case = make_case(mod, seed, tier, i, 0)
         tape = Tape(seed)
         out = mod.execute(case, tape)
         stats.update(out["stats"])
